@@ -126,8 +126,13 @@ Judge_parse(e) ==
    same name / inputs / outputs / blackbox instances with the same net on every pin; Kleene-equal function at every
    output and blackbox input pin over the common free signals (inputs and blackbox output pins, by name). *)
 \* the shared constant nodes are identified by what they are, not by their names
-TieRen(c, nm) == LET t == c.ty[Idx(c, nm)] IN
-                 IF t \in Consts /\ HasPrefix(nm, "tie") THEN "<const " \o t \o ">" ELSE nm
+\* (and so are the buffers the readers insert for a REPEATED constant operand of a parity gate, named <constant node>_dup...)
+TieRen(c, nm) == LET i == Idx(c, nm)  t == c.ty[i] IN
+                 IF t \in Consts /\ HasPrefix(nm, "tie") THEN "<const " \o t \o ">"
+                 ELSE IF t = "buf" /\ HasPrefix(nm, "tie") /\ Len(c.fi[i]) = 1 /\ c.ty[c.fi[i][1]] \in Consts
+                         /\ HasPrefix(nm, c.names[c.fi[i][1]] \o "_dup")
+                      THEN "<const " \o c.ty[c.fi[i][1]] \o ">" \o SubSeq(nm, Len(c.names[c.fi[i][1]]) + 1, Len(nm))
+                 ELSE nm
 PinNets(c) == { <<c.bbs[b].inst, c.bbs[b].type,
                   {<<pn, {TieRen(c, x) : x \in FiNames(c, Idx(c, Pin(c.bbs[b].inst, pn)))}>> : pn \in {x \in Range(c.bbs[b].ins) : HasName(c, Pin(c.bbs[b].inst, x))}},
                   {<<pn, NamesOf(c, FoSet(c, Idx(c, Pin(c.bbs[b].inst, pn))))>> : pn \in {x \in Range(c.bbs[b].outs) : HasName(c, Pin(c.bbs[b].inst, x))}}>>
